@@ -397,6 +397,8 @@ theorem setTh_th : ∀ (cells : List (Cell α)) (vs : List α), cells.length = v
 /-- premises on the configuration for the water invariant of a run -/
 structure RunPre (F : Fn α) (cfg : RunCfg α) : Prop where
   exp : ExpLaws F
+  /-- `x ** 2 = x · x` (adjusted field capacity above a water table, SCS runoff) -/
+  sq : PowSqLaw F
   /-- the initial profile: every compartment well-formed, `th_dry ≤ th ≤ th_s` (in particular
   when `th_wp ≤ th ≤ th_s`), `th_fc ≤ th_fc_Adj ≤ th_s`, `0 ≤ dzsum`, `th_fc < th_s` -/
   cells0 : ∀ x ∈ cfg.init.cells, DrainPre x
@@ -483,7 +485,7 @@ theorem performR_waterInv (hP : RunPre F cfg) (wp fc : Nat → α) (hW : WaterIn
   have ok := hOK d hd
   have hpre : DayPre F d.P.W d.st.cells d.st.water := by
     rw [hst]
-    refine ⟨hP.exp, hW.pre, hW.pond, ?_⟩
+    refine ⟨hP.exp, hP.sq, hW.pre, hW.pond, ?_⟩
     rw [hdr.2]; exact paramsOf_smt hP _ _
   have hinv : ∀ y ∈ d.r.state.cells, y.Inv := by
     by_cases hwt : d.P.W.waterTable = 1
